@@ -58,24 +58,43 @@ static void gen_faults(op_t *o, rng_t *r, int call, int maxn, int allow_eagain, 
     }
 }
 
-/* deterministic sweep: every read script over {FULL,SHORT,EINTR}^<=3 and write script over {FULL,SHORT,EINTR,EAGAIN}^<=3 */
+/* deterministic sweep, three passes:
+   A  every read script over {FULL,SHORT,EINTR}^<=3 and every write script over {FULL,SHORT,EINTR,EAGAIN}^<=3, 8 payload sizes, a
+      receive queue that holds everything;
+   B  the same scripts with a receive queue of 1 kB, so that every transfer above that also meets the kernel's own flow control
+      (blocking senders park, non-blocking ones get EAGAIN by themselves and go through the back-off) on top of the scripted answers;
+   C  every script of length 4 over the same alphabets (81 + 256 scripts), queue as in A. */
 #define SWEEP_SIZES 8
 static const int sweep_sizes[SWEEP_SIZES] = { 5, 100, 4096, 4097, 8192, 9000, 16385, 20000 };
-static int sweep_total(void) { return (3 + 9 + 27) * SWEEP_SIZES + (4 + 16 + 64) * SWEEP_SIZES; }
+#define SWEEP_A ((3 + 9 + 27) * SWEEP_SIZES + (4 + 16 + 64) * SWEEP_SIZES)
+#define SWEEP_C ((81 + 256) * SWEEP_SIZES)
+static int sweep_total(void) { return 2 * SWEEP_A + SWEEP_C; }
 static void gen_sweep(plan_t *p, int idx)
 {
-    int readside = idx < (3 + 9 + 27) * SWEEP_SIZES, base = readside ? 3 : 4, call = readside ? FC_READ : FC_WRITE;
-    int size, code, len, script[3];
+    int pass = idx < SWEEP_A ? 0 : idx < 2 * SWEEP_A ? 1 : 2;
+    int readside, base, call, size, code, len, script[4];
     op_t *o;
-    if (!readside) idx -= (3 + 9 + 27) * SWEEP_SIZES;
-    size = sweep_sizes[idx % SWEEP_SIZES];
-    idx /= SWEEP_SIZES;
-    if (idx < base) { len = 1; code = idx; }
-    else if (idx < base + base * base) { len = 2; code = idx - base; }
-    else { len = 3; code = idx - base - base * base; }
+    if (pass == 1) idx -= SWEEP_A;
+    if (pass == 2) {
+        idx -= 2 * SWEEP_A;
+        readside = idx < 81 * SWEEP_SIZES;
+        if (!readside) idx -= 81 * SWEEP_SIZES;
+        base = readside ? 3 : 4; call = readside ? FC_READ : FC_WRITE;
+        size = sweep_sizes[idx % SWEEP_SIZES];
+        idx /= SWEEP_SIZES;
+        len = 4; code = idx;
+    } else {
+        readside = idx < (3 + 9 + 27) * SWEEP_SIZES; base = readside ? 3 : 4; call = readside ? FC_READ : FC_WRITE;
+        if (!readside) idx -= (3 + 9 + 27) * SWEEP_SIZES;
+        size = sweep_sizes[idx % SWEEP_SIZES];
+        idx /= SWEEP_SIZES;
+        if (idx < base) { len = 1; code = idx; }
+        else if (idx < base + base * base) { len = 2; code = idx - base; }
+        else { len = 3; code = idx - base - base * base; }
+    }
     for (int i = 0; i < len; i++) { script[i] = code % base; code /= base; }
-    plan_knob(p, "sweep", 1);
-    plan_knob(p, "sock.rxcap", 65536);
+    plan_knob(p, "sweep", 1 + pass);
+    plan_knob(p, "sock.rxcap", pass == 1 ? 1024 : 65536);
     plan_knob(p, "alloc.realloc", REALLOC_MOVE);
     plan_knob(p, "ntasks", 2);
     plan_op(p, 0, "new", 2, 0L, 0L); op_str(&p->ops[p->nops - 1], "unix:/tmp/s0", 12);
@@ -91,7 +110,7 @@ static void gen_sweep(plan_t *p, int idx)
     if (readside) for (int i = 0; i < len; i++) op_fault(o, FAULT(call, script[i], script[i] == FO_SHORT ? (i == 0 ? 3 : size / 3 + 1) : 0));
     plan_op(p, 0, "del", 1, 1L);
     plan_op(p, 0, "del", 1, 0L);
-    /* server first until it listens, then the client completely, then the server */
+    /* server first until it listens, then the client as far as it gets, then whoever can run */
     for (int i = 0; i < 12; i++) p->sched[p->nsched++] = 0;
 }
 
@@ -467,7 +486,7 @@ static void exec(const plan_t *p)
     hard_faults_enabled = (int)plan_get(p, "hard", 0);
     memset(sock, 0, sizeof(sock)); memset(slot_gen, 0, sizeof(slot_gen)); memset(slot_fd, 0, sizeof(slot_fd));
     for (int i = 0; i < MAXCONN; i++) { conn[i].stream[0].len = conn[i].stream[1].len = 0; conn[i].rcvd[0] = conn[i].rcvd[1] = 0; conn[i].broken[0] = conn[i].broken[1] = 0; }
-    if (plan_get(p, "sweep", 0)) probe_hit("sweep_plan");
+    if (plan_get(p, "sweep", 0)) { probe_hit("sweep_plan"); if (plan_get(p, "sweep", 0) == 2) probe_hit("sweep_small_queue"); if (plan_get(p, "sweep", 0) == 3) probe_hit("sweep_length_4"); }
     rc = task_run_all(nt, task_body, NULL, p->sched, p->nsched);
     if (rc < 0) { probe_hit("run_ended_blocked"); tr_printf("BLOCKED"); }
     else {
